@@ -4,10 +4,10 @@
 //! Ops (real crates, public API only):
 //!   C18.w <n> <frame>                     worker index of the three hashers for one frame
 //!                                          (TCP: `hash_source_ip(p) % n` as parallel.rs computes it)
-//!   C18.pair <framing> <n> <f1> <f2>      the same for two frames, plus the endpoints `process.rs` would
-//!                                          compute for each (parse_packet + pnet views)
+//!   C18.pt|ph|pl <framing> <n> <f1> <f2>  TCP / HTTP / TLS worker index of two frames, plus the endpoints
+//!                                          `process.rs` would compute for each (parse_packet + pnet views)
 //! Frame generator shared with c15.rs.
-use super::c15::{ep_str, gen_frame, FrameSpec, Framing, A4, A6, HTTP_REQ, NULL_HDRS, TLS_PARTIAL};
+use super::c15::{ep_str, gen_frame, FrameSpec, Framing, Misc, A4, A6, HTTP_REQ, NULL_HDRS, TLS_PARTIAL};
 use crate::rng::Rng;
 use crate::wr::Line;
 use crate::Ctx;
@@ -71,16 +71,21 @@ fn fr_tok(f: Framing) -> &'static str {
     }
 }
 
+/// one case per hasher, so that a finding about one hasher never hides a failure of another
 fn emit_pair(ctx: &mut Ctx, framing: Framing, n: usize, f1: &[u8], f2: &[u8]) {
     let (a, b) = (f1.to_vec(), f2.to_vec());
-    let out = crate::wr::guarded(move || {
+    let outs = std::panic::catch_unwind(move || {
         let (t1, h1, l1) = workers(n, &a);
         let (t2, h2, l2) = workers(n, &b);
-        format!("t={t1},{t2} h={h1},{h2} l={l1},{l2} e1={} e2={}", own_ep(&a), own_ep(&b))
-    });
-    let mut l = Line::op("C18.pair");
-    l.tok(fr_tok(framing)).usize(n).bytes(f1).bytes(f2);
-    ctx.emit(l.finish(&out));
+        let e = format!("e1={} e2={}", own_ep(&a), own_ep(&b));
+        [format!("w={t1},{t2} {e}"), format!("w={h1},{h2} {e}"), format!("w={l1},{l2} {e}")]
+    })
+    .unwrap_or_else(|_| ["PANIC".to_string(), "PANIC".to_string(), "PANIC".to_string()]);
+    for (op, out) in ["C18.pt", "C18.ph", "C18.pl"].iter().zip(outs.iter()) {
+        let mut l = Line::op(op);
+        l.tok(fr_tok(framing)).usize(n).bytes(f1).bytes(f2);
+        ctx.emit(l.finish(out));
+    }
 }
 
 /// change only bytes that are not part of any identity: payload, flags, seq/ack, window, TCP options,
@@ -89,7 +94,8 @@ fn vary_non_identity(r: &mut Rng, s: &FrameSpec) -> FrameSpec {
     let mut v = s.clone();
     let k = 1 + r.below(3);
     for _ in 0..k {
-        match r.below(9) {
+        match r.below(11) {
+            9 | 10 => v.misc = Misc::random(r),
             0 => {
                 v.payload = match r.below(4) {
                     0 => vec![],
